@@ -78,14 +78,32 @@ func extractTimes(format string, out []byte) ([]tcFields, error) {
 		if len(out) < 1024 || (len(out)-1024)%128 != 0 {
 			return nil, fmt.Errorf("stl output has %d bytes", len(out))
 		}
+		// the timecodes of a file count from its timecode start of programme (GSI bytes 256..263, HHMMSSFF): what a
+		// timecode denotes for the cue is the difference, taken in frames
+		fps := 25
+		if string(out[3:11]) == "STL30.01" {
+			fps = 30
+		}
+		a := func(b []byte) int { v, _ := strconv.Atoi(string(b)); return v }
+		tcp := ((a(out[256:258])*60+a(out[258:260]))*60+a(out[260:262]))*fps + a(out[262:264])
+		rel := func(b []byte) tcFields {
+			n := ((int(b[0])*60+int(b[1]))*60+int(b[2]))*fps + int(b[3]) - tcp
+			if tcp == 0 || n < 0 {
+				return tcFields{H: int(b[0]), Hd: 1, M: int(b[1]), Md: 1, S: int(b[2]), Sd: 1, F: int(b[3]), Fd: 1}
+			}
+			return tcFields{H: n / fps / 3600, Hd: 1, M: n / fps / 60 % 60, Md: 1, S: n / fps % 60, Sd: 1, F: n % fps, Fd: 1}
+		}
 		for p := 1024; p < len(out); p += 128 {
 			b := out[p : p+128]
-			res = append(res, tcFields{H: int(b[5]), Hd: 1, M: int(b[6]), Md: 1, S: int(b[7]), Sd: 1, F: int(b[8]), Fd: 1},
-				tcFields{H: int(b[9]), Hd: 1, M: int(b[10]), Md: 1, S: int(b[11]), Sd: 1, F: int(b[12]), Fd: 1})
+			res = append(res, rel(b[5:9]), rel(b[9:13]))
 		}
 	}
 	return res, nil
 }
+
+// stlTcp: the programme start the STL lists carry (formats stl25tcp / stl30tcp: ten hours and half a frame - not a
+// whole number of frames, as metadata set by a program may be)
+var stlTcp time.Duration
 
 func stlMeta(fps int) *astisub.Metadata {
 	b, err := ioutil.ReadFile(filepath.Join(repoDir(), "testdata", "example-in.stl"))
@@ -108,6 +126,9 @@ func runBatch(k *json.Encoder, n *int, format string, fps int, ts []time.Duratio
 	s := astisub.NewSubtitles()
 	if format == "stl" {
 		s.Metadata = stlMeta(fps)
+		if s.Metadata != nil {
+			s.Metadata.STLTimecodeStartOfProgramme = stlTcp
+		}
 	}
 	for i := 0; i+1 < len(ts); i += 2 {
 		s.Items = append(s.Items, &astisub.Item{StartAt: ts[i], EndAt: ts[i+1],
@@ -167,7 +188,7 @@ func cmdTimecodec(args []string) error {
 	fs := flag.NewFlagSet("timecodec", flag.ExitOnError)
 	out := fs.String("out", "", "trace ndjson")
 	seed := fs.Int64("seed", 1, "seed")
-	format := fs.String("fmt", "srt", "srt vtt ttml ssa stl25 stl30")
+	format := fs.String("fmt", "srt", "srt vtt ttml ssa stl25 stl30 stl25tcp stl30tcp")
 	part := fs.Int("part", 0, "partition")
 	parts := fs.Int("parts", 1, "partitions")
 	thorough := fs.Bool("thorough", false, "larger grid")
@@ -183,7 +204,10 @@ func cmdTimecodec(args []string) error {
 	enc := json.NewEncoder(bw)
 	f, fps := *format, 0
 	if strings.HasPrefix(f, "stl") {
-		fps, _ = strconv.Atoi(f[3:])
+		fps, _ = strconv.Atoi(f[3:5])
+		if strings.HasSuffix(f, "tcp") {
+			stlTcp = 10*time.Hour + 20*time.Millisecond
+		}
 		f = "stl"
 	}
 	r := rand.New(rand.NewSource(*seed))
@@ -192,7 +216,7 @@ func cmdTimecodec(args []string) error {
 	add := func(d time.Duration) {
 		lim := 100 * time.Hour
 		if f == "stl" {
-			lim = 24 * time.Hour
+			lim = 24*time.Hour - stlTcp
 		}
 		if d >= 0 && d < lim {
 			set[d] = true
